@@ -114,9 +114,16 @@ func wrapsParam(p *load.Program, fn *ssa.Function, pi int, memo map[string]bool,
 					derived[v], changed = true, true
 					wrapper[v] = wrapper[x.X]
 				}
+			case *ssa.Alloc:
+				// &T{..., f: param}, also when it travels as a pointer first (a constructor helper returning *T)
+				if allocStores(x, derived) {
+					derived[v], wrapper[v], changed = true, true, true
+				}
 			case *ssa.MakeInterface:
 				// &T{..., f: param} boxed
 				if al, ok := x.X.(*ssa.Alloc); ok && allocStores(al, derived) {
+					derived[v], wrapper[v], changed = true, true, true
+				} else if wrapper[x.X] {
 					derived[v], wrapper[v], changed = true, true, true
 				}
 			case *ssa.Call:
@@ -137,6 +144,14 @@ func wrapsParam(p *load.Program, fn *ssa.Function, pi int, memo map[string]bool,
 	for _, r := range sx.Returns(fn) {
 		if ei >= 0 && ei < len(r.Results) && wrapper[r.Results[ei]] {
 			res = true
+		}
+		if ei < 0 {
+			// a constructor helper that hands the wrapper out under its concrete pointer type
+			for _, v := range r.Results {
+				if wrapper[v] {
+					res = true
+				}
+			}
 		}
 	}
 	memo[k] = res
